@@ -11,14 +11,22 @@ from corr.c01 import component_sizes
 
 
 def real(case):
-    seq, pairs = case
+    seq, pairs = case[:2]
     b = g1.mk_bpseq(seq, pairs)
+    subject = None
+    if len(case) > 2 and case[2]:
+        # the elements of an object that is itself the result of derivations; it is judged as the structure it holds
+        for name in case[2]:
+            b = getattr(b, name)()
+        seq = "".join(e.sequence for e in b.entries)
+        pairs = [e.pair for e in b.entries]
+        subject = (seq, pairs)
     r = call(lambda: b.elements)
     if r[0] != "ok":
-        return {"err": r[1]}
+        return {"err": r[1], "subject": subject}
     stems, singles, hairpins, loops = r[1]
     db = b.dot_bracket.structure
-    out = {"db": db}
+    out = {"db": db, "subject": subject}
     out["desc"] = [str(e) for l in (stems, singles, hairpins, loops) for e in l]
     out["stems"] = [(s.strand5p.first, s.strand5p.last, s.strand3p.first, s.strand3p.last) for s in stems]
     out["singles"] = [(s.strand.first, s.strand.last, 53 if (s.is5p and s.is3p) else 5 if s.is5p else 3 if s.is3p else 0) for s in singles]
@@ -105,6 +113,10 @@ def build_inputs(ctx):
         sizes = component_sizes(pairs)
         if sizes is not None and max(sizes or [0]) <= 9:
             out.append((tag, (seq, pairs)))
+            if tag in ("hand", "planted", "dense", "tight", "nested") and rng.random() < 0.12:
+                chain = rng.choice([("without_isolated",), ("without_pseudoknots",), ("without_isolated", "without_pseudoknots"),
+                                    ("without_pseudoknots", "without_isolated")])
+                out.append(("derived:" + "+".join(chain), (seq, pairs, chain)))
     return out, nmax
 
 
@@ -144,6 +156,9 @@ def run(ctx):
     res.dist["exhaustive_nmax"] = nmax
     outs = parallel_map(real, [c for _, c in inputs])
     history_probe(ctx, res, real, [c for _, c in inputs], "elements")
+    originals = [c for _, c in inputs]
+    # derived objects: model and specification see the structure the object holds
+    inputs = [(tag, (o["subject"] if o.get("subject") else c[:2])) for (tag, c), o in zip(inputs, outs)]
     reqs, idx = [], []
     for ci, ((tag, (seq, pairs)), o) in enumerate(zip(inputs, outs)):
         if "err" in o:
@@ -153,10 +168,17 @@ def run(ctx):
         reqs.append(["ss.elements_spec", seq, ps, enc_rows(o["stems"]), enc_rows(o["singles"]), enc_rows(o["hairpins"]), enc_loops(o["loops"])])
         idx.append((ci, "spec"))
     resp = ctx.driver.ask(reqs)
+    def mk_inp(ci):
+        tag, (seq, pairs) = inputs[ci]
+        d = {"seq": seq, "pairs": pairs, "family": tag}
+        if len(originals[ci]) > 2:
+            d = {"seq": originals[ci][0], "pairs": originals[ci][1], "family": tag, "derived_by": list(originals[ci][2]),
+                 "subject": {"seq": seq, "pairs": pairs}}
+        return d
     for (ci, what), r in zip(idx, resp):
         tag, (seq, pairs) = inputs[ci]
         o = outs[ci]
-        inp = {"seq": seq, "pairs": pairs, "family": tag}
+        inp = mk_inp(ci)
         if what == "desc":
             impl = "|".join(o["desc"])
             if impl != r:
@@ -166,11 +188,11 @@ def run(ctx):
                 npairs = sum(1 for p in pairs if p)
                 sig = "C07:%s" % r + (":no-pairs" if npairs == 0 else "")
                 res.fail("spec", sig, inp, "element lists of the real code violate the decomposition spec: %s" % r)
-    for (tag, (seq, pairs)), o in zip(inputs, outs):
+    for ci, ((tag, (seq, pairs)), o) in enumerate(zip(inputs, outs)):
         n, npairs = g1.stats(seq, pairs)
-        res.case((n, tuple(pairs)), nontrivial=npairs > 0)
+        res.case((n, tuple(pairs), tag), nontrivial=npairs > 0)
         res.count("family:" + tag.split(":")[0])
-        inp = {"seq": seq, "pairs": pairs, "family": tag}
+        inp = mk_inp(ci)
         if "err" in o:
             res.fail("spec", "C07:raises:" + o["err"], inp, "BpSeq.elements raised " + o["err"])
             continue
@@ -202,7 +224,9 @@ def run(ctx):
 
 def replay(ctx, data):
     inp = data["input"]
-    o = real((inp["seq"], inp["pairs"]))
+    o = real((inp["seq"], inp["pairs"], tuple(inp.get("derived_by", []))))
+    if inp.get("subject"):
+        inp = dict(inp, seq=inp["subject"]["seq"], pairs=inp["subject"]["pairs"])
     print("impl:", o)
     if "err" not in o:
         ps = g1.pstr(inp["pairs"])
